@@ -479,6 +479,14 @@ def _two_way_split(arms):
     return last.get("k") == "Wild" and first.get("k") in ("TupleStruct", "Struct", "Path", "Expr")
 
 
+def _cow_arms(arms):
+    """`match cow { Cow::Borrowed(..) => a, Cow::Owned(..) => b }` (either order, no guards)"""
+    if len(arms) != 2 or any(a.get("guard") for a in arms):
+        return False
+    names = sorted(((H.strip(a["pat"]).get("path") or {}).get("path", "")).rsplit("::", 1)[-1] for a in arms if H.strip(a["pat"]).get("k") == "TupleStruct")
+    return names == ["Borrowed", "Owned"]
+
+
 def _is_failure_value(e):
     """`Err(..)` or `None`"""
     e = H.strip(e)
@@ -1155,8 +1163,7 @@ class NF:
             if m["name"] == "truncate" and len(m["args"]) == 1 and _is_local(m["args"][0], stem_len) and not tail:
                 truncated = True
             elif m["name"] == "write_fmt" and truncated and H.strip(m["args"][0]).get("k") == "FormatArgs":
-                tail += [q if q[0] == "lit" else ("hole", ("unknown", "value of a later round"), q[2], q[3] if len(q) > 3 else "?")
-                         for q in self.format_nf(H.strip(m["args"][0]), Env())[1]] if False else [("hole", ("unknown", "what a round of the loop appends"), "display", "?")]
+                tail.append(("hole", ("unknown", "what a round of the loop appends"), "display", "?"))
             elif m["name"] in ("push_str", "push") and truncated and len(m["args"]) == 1:
                 tail.append(("hole", ("unknown", "what a round of the loop appends"), "display", "?"))
             else:
@@ -2973,6 +2980,9 @@ def apply_closure_value(N, clo_nf, arg_nfs):
     return body
 
 
+RELIED_LENGTH_DISTINCT = set()      # functions whose replacements were taken to differ in length from what they replace
+
+
 class CallExpander:
     """Expand calls to small local non-writer functions inside normal forms (e.g. xml_name_to_rust_name, as_field_name,
     create_mod_name_for_namespace) so that sanitiser chains become visible."""
@@ -3368,7 +3378,8 @@ class CallExpander:
                 return None
             if x.get("k") == "Match" and not self.general_matches and option_match([pat_label(a["pat"]) for a in x.get("arms", [])], x.get("arms", [])) is None \
                     and not _bool_patterns(x.get("arms", [])) and not _literal_match(x.get("arms", [])) and not _matches_macro(x.get("arms", [])) \
-                    and not _two_way_split(x.get("arms", [])) and not _binding_arms(x.get("arms", [])) and not _guarded_or_else(x.get("arms", [])):
+                    and not _two_way_split(x.get("arms", [])) and not _binding_arms(x.get("arms", [])) and not _guarded_or_else(x.get("arms", [])) \
+                    and not _cow_arms(x.get("arms", [])):
                 return None  # only matches that read as if/else (option, tuple of booleans, one variant against the rest); tables and variant dispatch stay opaque calls
         v = self.NF.nf(nb["value"], env)
         if any(r[0] in ("unknown", "local") for r in nf_roots(v)):
@@ -3380,7 +3391,64 @@ class CallExpander:
         r = self._expand(n, depth)
         if depth == 0:
             r = self._fold_const_components(r)
+            r = self._fold_cow_matches(r)
         return nf_simplify(r) if depth == 0 else r     # `Struct { f: e, .. }.f` of an expanded constructor helper is e
+
+    def _borrows_its_argument(self, fn):
+        """does every `Cow::Borrowed(x)` the function returns hold its own (first) text parameter? (then `Borrowed` means: unchanged)"""
+        key = "cowfn:" + fn
+        if key not in self.cache:
+            self.cache[key] = False
+            b = self.F.lib.body(fn)
+            try:
+                nb = H.norm_body(b) if b is not None and b.get("hir") is not None else None
+            except Unrecognised:
+                nb = None
+            if nb is not None and len(nb["params"]) >= 1 and "Cow<" in str(b.get("ret_ty") or next((f_["output"] for f_ in self.F.lib.items.get("fns", []) if f_["path"] == fn), "")):
+                p0 = {i for i, _n in H.pat_bindings(nb["params"][0])}
+                ok, seen_b = True, 0
+                for x in H.exprs(nb["value"]):
+                    if x.get("k") == "Call" and (H.callee_path(x) or "").rsplit("::", 1)[-1] == "Borrowed" and "Cow" in (H.callee_path(x) or ""):
+                        seen_b += 1
+                        a = H.strip(x["args"][0]) if x["args"] else {}
+                        while a.get("k") in ("AddrOf",) or (a.get("k") == "Unary" and a.get("op") == "Deref"):
+                            a = H.strip(a["e"])
+                        if not (a.get("k") == "Path" and a.get("res") == "local" and a.get("id") in p0):
+                            ok = False
+                self.cache[key] = ok and seen_b > 0
+        return self.cache[key]
+
+    def _fold_cow_matches(self, n):
+        """`match f(&text) { Cow::Borrowed(_) => text, Cow::Owned(o) => o }` is the text `f(&text)` stands for: `f` hands back its argument
+        where it borrows (checked on f), so the buffer the caller kept is that very text"""
+        if not isinstance(n, tuple):
+            return n
+        n = tuple(self._fold_cow_matches(x) if isinstance(x, tuple) else x for x in n)
+        if n and n[0] == "ifelse" and isinstance(n[1], tuple) and n[1] and n[1][0] == "binop" and n[1][1] in ("Ne", "Eq"):
+            # `if g(x).len() != x.len() { g(x) } else { x }` with g a table of replacements that all differ in length from what they
+            # replace (and the identity otherwise): where the lengths agree nothing was replaced, so either way the value is g(x).
+            # The property of the table is an obligation of whoever relies on it (RELIED_LENGTH_DISTINCT; C14.R2 discharges it)
+            def len_of(v):
+                return v[2][0] if isinstance(v, tuple) and v[0] == "call" and str(v[1]).rsplit("::", 1)[-1] == "len" and len(v[2]) == 1 else None
+            la, lb = len_of(n[1][2]), len_of(n[1][3])
+            changed, same = (n[2], n[3]) if n[1][1] == "Ne" else (n[3], n[2])
+            if la is not None and lb is not None:
+                for a_, b_ in ((la, lb), (lb, la)):
+                    a0, b0 = _through_identity(a_), _through_identity(b_)
+                    if isinstance(a0, tuple) and a0[0] == "call" and len(a0[2]) == 1 and _through_identity(a0[2][0]) == b0 \
+                            and _through_identity(changed) == a0 and _through_identity(same) == b0 and str(a0[1]) in self.keep:
+                        RELIED_LENGTH_DISTINCT.add(str(a0[1]))
+                        return changed
+        if n and n[0] == "match" and len(n) > 2 and isinstance(n[1], tuple) and n[1] and n[1][0] == "call" and len(n[2]) == 2:
+            labs = {str(l_).split("(")[0].rsplit("::", 1)[-1]: v_ for l_, v_ in n[2]}
+            sc = n[1]
+            if set(labs) == {"Borrowed", "Owned"} and len(sc[2]) == 1 and isinstance(sc[1], str) and self._borrows_its_argument(sc[1]):
+                arg = _through_identity(sc[2][0])
+                vb, vo = _through_identity(labs["Borrowed"]), labs["Owned"]
+                owned_payload = isinstance(vo, tuple) and vo[0] == "payload" and str(vo[1]).startswith("Owned") and vo[2] == sc
+                if vb == arg and owned_payload:
+                    return sc
+        return n
 
     def _const_tuple(self, path):
         """the literal components of a named constant of the crate that is a tuple of literals (`const SOAPENV: (&str, &str) = (..)`)"""
